@@ -156,11 +156,15 @@ structure Config where
   p0 : Nat
   len : Nat → Nat
 
-/-- parallel mode on a pool of `n` workers under the schedule `s` (of the batches
-`chunks (chunksize S n) args`): the executed shots in completion order -/
-def parRunN (cfg : Config) (n S : Nat) (s : Schedule) : List Entry :=
+/-- parallel mode with batches of `cs` shots under the schedule `s` (of the batches
+`chunks cs args`): the executed shots in completion order -/
+def parRunWith (cfg : Config) (cs S : Nat) (s : Schedule) : List Entry :=
   let ag := mkArgs cfg.repaired true ⟨.parent, cfg.p0⟩ S
-  consume cfg.len (chunks (chunksize S n) ag.1) s.worker (workerInit cfg.start ag.2) s.order
+  consume cfg.len (chunks cs ag.1) s.worker (workerInit cfg.start ag.2) s.order
+
+/-- parallel mode on a pool of `n` workers: the chunk size the code computes -/
+def parRunN (cfg : Config) (n S : Nat) (s : Schedule) : List Entry :=
+  parRunWith cfg (chunksize S n) S s
 
 /-- parallel mode on a machine with `cpu` cores -/
 def parRun (cfg : Config) (cpu S : Nat) (s : Schedule) : List Entry :=
@@ -170,6 +174,12 @@ def parRun (cfg : Config) (cpu S : Nat) (s : Schedule) : List Entry :=
 def seqRun (cfg : Config) (S : Nat) : List Entry :=
   let ag := mkArgs cfg.repaired false ⟨.parent, cfg.p0⟩ S
   (runShots cfg.len ag.2 ag.1).1.map fun p => ⟨p.1, 0, p.2⟩
+
+/-- the parent's generator when `_perform_simulation` returns: in sequential mode the shots ran on it;
+in parallel mode only the repaired code has drawn from it (the entropy of the seeds) -/
+def parentAfter (cfg : Config) (parallel : Bool) (S : Nat) : Gen :=
+  let ag := mkArgs cfg.repaired parallel ⟨.parent, cfg.p0⟩ S
+  if parallel then ag.2 else (runShots cfg.len ag.2 ag.1).2
 
 /-- executable: are the draw sources of a run pairwise disjoint? -/
 def pairwiseDisjointB : List Entry → Bool
